@@ -3,7 +3,7 @@
 set -e
 cd "$(dirname "$0")"
 mkdir -p _build
-cp ../coq/extracted/model.ml ../coq/extracted/model.mli conv.ml validate.ml driver.ml _build/
+cp ../coq/extracted/model.ml ../coq/extracted/model.mli conv.ml validate.ml execval.ml driver.ml _build/
 cd _build
-ocamlfind ocamlopt -O2 -package zarith -linkpkg -w -a model.mli model.ml conv.ml validate.ml driver.ml -o driver 2>&1 || \
-ocamlfind ocamlopt -package zarith -linkpkg -w -a model.mli model.ml conv.ml validate.ml driver.ml -o driver
+ocamlfind ocamlopt -O2 -package zarith -linkpkg -w -a model.mli model.ml conv.ml validate.ml execval.ml driver.ml -o driver 2>&1 || \
+ocamlfind ocamlopt -package zarith -linkpkg -w -a model.mli model.ml conv.ml validate.ml execval.ml driver.ml -o driver
